@@ -279,6 +279,10 @@ def iter_kind(ex, itv, st):
         lo, hi = pv[1], pv[2]
         n = ex.np.nonneg_diff(hi, lo)
         return 'index', n, (lambda k: (Z(k) + Z(lo)) if (is_z3(k) or is_z3(lo)) else k + lo) if (is_z3(lo) or lo != 0) else (lambda k: k)
+    if tag(pv) == 'range' and pv[3] == -1:       # range(hi, lo, -1): hi, hi-1, ..., lo+1
+        hi, lo = pv[1], pv[2]
+        n = ex.np.nonneg_diff(hi, lo)
+        return 'index', n, (lambda k: (Z(hi) - Z(k)) if (is_z3(k) or is_z3(hi)) else hi - k)
     if tag(pv) in LAZY:
         pv = st.deref(ex.np.materialise(pv, st))
     if isinstance(pv, SList):
